@@ -203,6 +203,12 @@ Proof.
   cbn [set_class classes]. apply cshape_upd with r; auto.
 Qed.
 
+Lemma cshape_set_plain st c pl : cshape (Some c) (classes st) (classes (set_plain st c pl)).
+Proof.
+  unfold set_plain. destruct (nth_error (classes st) c) as [r|] eqn:E; [|apply cshape_refl].
+  cbn [classes]. apply cshape_upd with r; auto.
+Qed.
+
 Lemma directly_cshape g st t args :
   cshape (match t with TCls c => Some c | TInst _ => None end) (classes st) (classes (directly g st t args)) /\ True.
 Proof.
@@ -225,9 +231,11 @@ Proof.
   - destruct (nth_error (insts st) o); apply cshape_refl.
   - unfold class_implements. destruct (nth_error (classes st) c); [apply cshape_class_ordered|apply cshape_refl].
   - unfold class_only. destruct (nth_error (classes st) c) as [r|] eqn:E; [|apply cshape_refl].
+    eapply cshape_trans; [|apply cshape_set_plain].
     eapply cshape_trans; [|apply cshape_class_ordered]. cbn [set_class classes]. apply cshape_upd with r; auto; cbn; intros; discriminate.
   - unfold class_implements. destruct (nth_error (classes st) c); [apply cshape_class_ordered|apply cshape_refl].
   - unfold class_only. destruct (nth_error (classes st) c) as [r|] eqn:E; [|apply cshape_refl].
+    eapply cshape_trans; [|apply cshape_set_plain].
     eapply cshape_trans; [|apply cshape_class_ordered]. cbn [set_class classes]. apply cshape_upd with r; auto; cbn; intros; discriminate.
   - apply cshape_class_ordered.
   - apply (proj1 (directly_cshape g st t _)).
@@ -270,7 +278,7 @@ Proof.
       destruct (c_builtin rc); exists r'; auto. }
   destruct o; cbn [step] in *;
     try (left; apply Hsame; first [apply (proj1 (cframe_class_implements ev g c st (nargs st l)))
-                                 |apply (proj1 (cframe_class_only ev g c st (nargs st l)))
+                                 |apply (proj1 (cframe_class_only ev g c st (nargs st l) (plain_args l)))
                                  |apply (proj1 (cframe_class_ordered ev g c st [x] []))
                                  |reflexivity]);
     try (left; eapply Hdir; eauto; fail).
